@@ -8,7 +8,15 @@ PP = ['src/math/pp/pp_mul.c', 'src/math/pp/pp_gcd.c', 'src/math/pp/pp_mod.c', 's
 # u16*u16 is evaluated in signed int by C promotion throughout the 16-bit test configuration (see props/C05.py)
 NOSO = ['--bounds-check', '--pointer-check', '--undefined-shift-check', '--div-by-zero-check']
 
-NOT_DECIDED = []
+NOT_DECIDED = [
+    'family B (stack depths): decided in the quick tier only for zzMul/zzSqr (n, m <= 4), zzDiv/zzMod with a one-word divisor or n < m, zzMulMod/zzMulWMod/zzSqrMod/zzRed/zzRedMont at n = 1, zzRedCrand/zzRedCrandMont at n = 2, 3 (all 16-bit words) and ppMulW/ppAddMulW/ppMul/ppSqr (n, m <= 4; 16-, 32- and 64-bit words)',
+    'zzDiv/zzMod with m >= 2 (hence zzMulMod/zzSqrMod/zzRed/zzRedBarrStart at n >= 2, zzLCM, zzJacobi, zzSqrt at n >= 3): the bound of the trial-quotient correction loop is a number-theoretic fact about a 32/16-bit division; 30-150 s probes did not finish, the obligations sit in the thorough tier with 900 s and were not run to completion',
+    'binary gcd family (zzGCD, zzIsCoprime, zzLCM, zzExGCD, zzDivMod, zzInvMod, zzAlmostInvMod, zzJacobi, ppGCD, ppExGCD, ppDivMod, ppInvMod, ppIsIrred): trip count ~ B_PER_W * (n + m) with symbolic word counts after normalisation; zzGCD(1, 1) at 16 bits is a 3.0 M variable / 11 M clause formula and did not finish in 300 s; thorough tier only, not decided',
+    'zzSqrt (Newton iteration), FAST zzRedBarr (while a >= mod), ppDiv/ppMod/ppRed/ppMulMod/ppSqrMod (symbolic m after normalisation: 2 M variables per instance, 40 s probes did not finish), ppMinPoly, ppMinPolyMod, zzPowerModW: thorough tier only, not decided',
+    'zzPowerMod (zm/qr vtable layer) is not encoded',
+    '64/32-bit words for everything except the ppMul family',
+    'defects found by reading the code while writing the harnesses and reproduced by concrete native ASan runs (NOT by a solver query that finished): ppIsIrred_deep, zzSqrt_deep, ppExGCD d extent for n < m, ppDiv q extent when b[m - 1] == 1, ppMinPoly a extent; see the report of agent-c07',
+]
 
 def _srcs(lst, word):
     return [f for f in lst if not (word == 16 and isinstance(f, str) and f.endswith('u64.c'))]
@@ -36,35 +44,43 @@ def deep_obligations(tier):
     obs = []
     T = ('thorough',); Q = ('quick', 'thorough')
     # ---------------------------------------------------------------- zz
-    obs.append(_ob('zz', 'MUL', 16, SQ + ASYM, ['zzMul', 'zzSqr'], 'zzMul(n, m), zzSqr(n)', tiers=Q))
-    obs.append(_ob('zz', 'DIV', 16, SQ + ASYM, ['zzDiv', 'zzMod'], 'zzDiv (n >= m), zzMod', tiers=Q, unwind=8, rules=[(r'^zz(Div|Mod)\.0$', 4)]))
+    obs.append(_ob('zz', 'MUL', 16, SQ + ASYM, ['zzMul', 'zzSqr'], 'zzMul(n, m), zzSqr(n)', tiers=Q, timeout=60))
+    M1 = [(1, 1), (2, 1), (3, 1), (4, 1), (1, 2), (2, 3)]
+    obs.append(_ob('zz', 'DIV', 16, M1, ['zzDiv', 'zzMod', 'zzDivW', 'zzModW'], 'zzDiv (n >= m), zzMod: one-word divisor and n < m paths', tiers=Q, unwind=8, rules=[(r'^zz(Div|Mod)\.0$', 4)], tag='_m1', timeout=60))
+    obs.append(_ob('zz', 'DIV', 16, [(2, 2), (3, 2), (4, 2), (3, 3), (4, 4)], ['zzDiv', 'zzMod'], 'zzDiv (n >= m), zzMod: Knuth division, m >= 2', tiers=T, unwind=8, rules=[(r'^zz(Div|Mod)\.0$', 4)], tag='_m2', timeout=900))
     def K(n, m, w=16): return w * (n + m) + 2       # binary gcd: every pass removes >= 1 bit from |u| + |v|
     for (n, m) in [(1, 1), (2, 1), (1, 2)]:
         t = '_%d_%d' % (n, m); k = K(n, m)
-        obs.append(_ob('zz', 'GCD', 16, [(n, m)], ['zzGCD'], 'zzGCD', tiers=Q, unwind=5, rules=[(r'^zzGCD\.0$', k)], tag=t))
-        obs.append(_ob('zz', 'COPRIME', 16, [(n, m)], ['zzIsCoprime'], 'zzIsCoprime', tiers=Q, unwind=5, rules=[(r'^zzGCD\.0$', k)], tag=t))
-        obs.append(_ob('zz', 'EXGCD', 16, [(n, m)], ['zzExGCD'], 'zzExGCD', tiers=Q, unwind=5, rules=[(r'^zzExGCD\.2$', k), (r'^zzExGCD\.[01]$', 16 * max(n, m) + 1)], tag=t))
-        obs.append(_ob('zz', 'JACOBI', 16, [(n, m)], ['zzJacobi'], 'zzJacobi', tiers=Q, unwind=6, rules=[(r'^zzJacobi\.0$', k), (r'^zz(Div|Mod)\.0$', 4)], tag=t))
-        obs.append(_ob('zz', 'LCM', 16, [(n, m)], ['zzLCM'], 'zzLCM', tiers=Q, unwind=6, rules=[(r'^zzGCD\.0$', k), (r'^zz(Div|Mod)\.0$', 4)], tag=t))
-    obs.append(_ob('zz', 'SQRT', 16, [(1, 0), (2, 0), (3, 0)], ['zzSqrt'], 'zzSqrt(n)', tiers=Q, one=True, unwind=8, rules=[(r'^zzSqrt\.0$', 20), (r'^zz(Div|Mod)\.0$', 4)]))
-    obs.append(_ob('zz', 'MODS', 16, [(1, 0), (2, 0), (3, 0)], ['zzMulMod', 'zzMulWMod', 'zzSqrMod'], 'zzMulMod, zzMulWMod, zzSqrMod', tiers=Q, one=True, unwind=10, rules=[(r'^zz(Div|Mod)\.0$', 4)]))
-    obs.append(_ob('zz', 'INVMOD', 16, [(1, 0)], ['zzInvMod', 'zzDivMod'], 'zzInvMod, zzDivMod', tiers=Q, one=True, unwind=5, rules=[(r'^zzDivMod\.2$', K(1, 1)), (r'^zzDivMod\.[01]$', 17)]))
-    obs.append(_ob('zz', 'ALMINV', 16, [(1, 0)], ['zzAlmostInvMod'], 'zzAlmostInvMod', tiers=Q, one=True, unwind=5, rules=[(r'^zzAlmostInvMod\.0$', 34)]))
-    obs.append(_ob('zz', 'RED', 16, [(1, 0), (2, 0), (3, 0)], ['zzRed', 'zzRedMont'], 'zzRed, zzRedMont (SAFE, FAST)', tiers=Q, one=True, unwind=10, rules=[(r'^zz(Div|Mod)\.0$', 4)]))
-    obs.append(_ob('zz', 'REDCRAND', 16, [(2, 0), (3, 0)], ['zzRedCrand', 'zzRedCrandMont'], 'zzRedCrand, zzRedCrandMont (SAFE, FAST)', tiers=Q, one=True))
-    obs.append(_ob('zz', 'REDBARR', 16, [(1, 0), (2, 0)], ['zzRedBarrStart', 'zzRedBarr'], 'zzRedBarrStart, zzRedBarr (SAFE, FAST)', tiers=Q, one=True, unwind=10, rules=[(r'^zz(Div|Mod)\.0$', 4), (r'^zzRedBarr_fast\.0$', 4)]))
-    obs.append(_ob('zz', 'POWW', 16, [(0, 0)], ['zzPowerModW'], 'zzPowerModW', tiers=Q, one=True, unwind=20, srcs=ZZ + [('src/math/zz/zz_pow.c', {'remove': ['zzPowerMod', 'zzPowerMod_deep']})]))
+        obs.append(_ob('zz', 'GCD', 16, [(n, m)], ['zzGCD'], 'zzGCD', tiers=T, unwind=5, rules=[(r'^zzGCD\.0$', k)], tag=t))
+        obs.append(_ob('zz', 'COPRIME', 16, [(n, m)], ['zzIsCoprime'], 'zzIsCoprime', tiers=T, unwind=5, rules=[(r'^zzGCD\.0$', k)], tag=t))
+        obs.append(_ob('zz', 'EXGCD', 16, [(n, m)], ['zzExGCD'], 'zzExGCD', tiers=T, unwind=5, rules=[(r'^zzExGCD\.2$', k), (r'^zzExGCD\.[01]$', 16 * max(n, m) + 1)], tag=t))
+        obs.append(_ob('zz', 'JACOBI', 16, [(n, m)], ['zzJacobi'], 'zzJacobi', tiers=T, unwind=6, rules=[(r'^zzJacobi\.0$', k), (r'^zz(Div|Mod)\.0$', 4)], tag=t))
+        obs.append(_ob('zz', 'LCM', 16, [(n, m)], ['zzLCM'], 'zzLCM', tiers=T, unwind=6, rules=[(r'^zzGCD\.0$', k), (r'^zz(Div|Mod)\.0$', 4)], tag=t))
+    obs.append(_ob('zz', 'SQRT', 16, [(1, 0), (2, 0), (3, 0)], ['zzSqrt'], 'zzSqrt(n)', tiers=T, one=True, unwind=8, rules=[(r'^zzSqrt\.0$', 20), (r'^zz(Div|Mod)\.0$', 4)]))
+    obs.append(_ob('zz', 'MODS', 16, [(1, 0)], ['zzMulMod', 'zzMulWMod', 'zzSqrMod'], 'zzMulMod, zzMulWMod, zzSqrMod', tiers=Q, one=True, unwind=10, rules=[(r'^zz(Div|Mod)\.0$', 4)], tag='_n1', timeout=60))
+    obs.append(_ob('zz', 'MODS', 16, [(2, 0), (3, 0)], ['zzMulMod', 'zzMulWMod', 'zzSqrMod'], 'zzMulMod, zzMulWMod, zzSqrMod', tiers=T, one=True, unwind=10, rules=[(r'^zz(Div|Mod)\.0$', 4)], tag='_n23', timeout=900))
+    obs.append(_ob('zz', 'INVMOD', 16, [(1, 0)], ['zzInvMod', 'zzDivMod'], 'zzInvMod, zzDivMod', tiers=T, one=True, unwind=5, rules=[(r'^zzDivMod\.2$', K(1, 1)), (r'^zzDivMod\.[01]$', 17)]))
+    obs.append(_ob('zz', 'ALMINV', 16, [(1, 0)], ['zzAlmostInvMod'], 'zzAlmostInvMod', tiers=T, one=True, unwind=5, rules=[(r'^zzAlmostInvMod\.0$', 34)]))
+    obs.append(_ob('zz', 'RED', 16, [(1, 0)], ['zzRed', 'zzRedMont'], 'zzRed, zzRedMont (SAFE, FAST)', tiers=Q, one=True, unwind=10, rules=[(r'^zz(Div|Mod)\.0$', 4)], tag='_n1', timeout=60))
+    obs.append(_ob('zz', 'RED', 16, [(2, 0), (3, 0)], ['zzRed', 'zzRedMont'], 'zzRed, zzRedMont (SAFE, FAST)', tiers=T, one=True, unwind=10, rules=[(r'^zz(Div|Mod)\.0$', 4)], tag='_n23', timeout=900))
+    obs.append(_ob('zz', 'REDCRAND', 16, [(2, 0), (3, 0)], ['zzRedCrand', 'zzRedCrandMont'], 'zzRedCrand, zzRedCrandMont (SAFE, FAST)', tiers=Q, one=True, timeout=60))
+    obs.append(_ob('zz', 'REDBARR', 16, [(1, 0), (2, 0)], ['zzRedBarrStart', 'zzRedBarr'], 'zzRedBarrStart, zzRedBarr (SAFE, FAST)', tiers=T, one=True, unwind=10, rules=[(r'^zz(Div|Mod)\.0$', 4), (r'^zzRedBarr_fast\.0$', 4)]))
+    obs.append(_ob('zz', 'POWW', 16, [(0, 0)], ['zzPowerModW'], 'zzPowerModW', tiers=T, one=True, unwind=20, srcs=ZZ + [('src/math/zz/zz_pow.c', {'remove': ['zzPowerMod', 'zzPowerMod_deep']})]))
     # ---------------------------------------------------------------- pp
+    for w in (16, 32, 64):
+        obs.append(_ob('pp', 'MULW', w, [(1, 0), (2, 0), (3, 0), (4, 0)], ['ppMulW', 'ppAddMulW'], 'ppMulW, ppAddMulW', tiers=Q, one=True, timeout=60))
+        obs.append(_ob('pp', 'MUL', w, SQ + ASYM, ['ppMul', 'ppSqr'], 'ppMul(n, m), ppSqr(n)', tiers=Q, timeout=60))
+    obs.append(_ob('pp', 'MUL', 16, [(5, 5), (6, 6), (7, 7), (8, 8), (9, 9), (10, 10), (11, 11), (5, 3), (10, 9), (9, 10)], ['ppMul'], 'ppMul(n, m): every base case ppMul1..ppMul9 and the Karatsuba recursion', tiers=T, tag='_big', unwind=14, timeout=300))
     for w in (16, 64):
-        obs.append(_ob('pp', 'MULW', w, [(1, 0), (2, 0), (3, 0)], ['ppMulW', 'ppAddMulW'], 'ppMulW, ppAddMulW', tiers=Q, one=True))
-        obs.append(_ob('pp', 'MUL', w, SQ + ASYM, ['ppMul', 'ppSqr'], 'ppMul(n, m), ppSqr(n)', tiers=Q))
-        obs.append(_ob('pp', 'DIV', w, SQ + GE, ['ppDiv'], 'ppDiv', tiers=Q))
-        obs.append(_ob('pp', 'MOD', w, SQ + ASYM, ['ppMod'], 'ppMod', tiers=Q))
-        obs.append(_ob('pp', 'MODS', w, [(1, 0), (2, 0), (3, 0)], ['ppMulMod', 'ppSqrMod'], 'ppMulMod, ppSqrMod', tiers=Q, one=True))
-        obs.append(_ob('pp', 'RED', w, [(1, 0), (2, 0), (3, 0)], ['ppRed'], 'ppRed', tiers=Q, one=True))
-        obs.append(_ob('pp', 'IRRED', w, [(1, 0), (2, 0)], ['ppIsIrred'], 'ppIsIrred', tiers=Q, one=True, unwind=40))
-    obs.append(_ob('pp', 'GCD', 16, [(1, 1), (2, 1), (1, 2)], ['ppGCD'], 'ppGCD', tiers=Q, unwind=40))
-    obs.append(_ob('pp', 'EXGCD', 16, [(1, 1), (2, 1), (1, 2)], ['ppExGCD'], 'ppExGCD', tiers=Q, unwind=40))
-    obs.append(_ob('pp', 'INVMOD', 16, [(1, 0)], ['ppInvMod', 'ppDivMod'], 'ppInvMod, ppDivMod', tiers=Q, one=True, unwind=40))
-    obs.append(_ob('pp', 'MINPOLY', 16, [(0, 9), (0, 16)], ['ppMinPoly'], 'ppMinPoly', tiers=Q, unwind=40))
+        obs.append(_ob('pp', 'DIV', w, SQ + GE, ['ppDiv'], 'ppDiv', tiers=T))
+        obs.append(_ob('pp', 'MOD', w, SQ + ASYM, ['ppMod'], 'ppMod', tiers=T))
+        obs.append(_ob('pp', 'MODS', w, [(1, 0), (2, 0), (3, 0)], ['ppMulMod', 'ppSqrMod'], 'ppMulMod, ppSqrMod', tiers=T, one=True))
+        obs.append(_ob('pp', 'RED', w, [(1, 0), (2, 0), (3, 0)], ['ppRed'], 'ppRed', tiers=T, one=True))
+        obs.append(_ob('pp', 'IRRED', w, [(1, 0), (2, 0)], ['ppIsIrred'], 'ppIsIrred', tiers=T, one=True, unwind=6, rules=[(r'^ppIsIrred\.0$', w + 1), (r'^ppGCD\.0$', 2 * w * 2 + 2)]))
+    for (n, m) in [(1, 1), (2, 1), (1, 2)]:
+        t = '_%d_%d' % (n, m); k = K(n, m)
+        obs.append(_ob('pp', 'GCD', 16, [(n, m)], ['ppGCD'], 'ppGCD', tiers=T, unwind=5, rules=[(r'^ppGCD\.0$', k)], tag=t))
+        obs.append(_ob('pp', 'EXGCD', 16, [(n, m)], ['ppExGCD'], 'ppExGCD', tiers=T, unwind=5, rules=[(r'^ppExGCD\.2$', k), (r'^ppExGCD\.[01]$', 16 * max(n, m) + 1)], tag=t))
+    obs.append(_ob('pp', 'INVMOD', 16, [(1, 0)], ['ppInvMod', 'ppDivMod'], 'ppInvMod, ppDivMod', tiers=T, one=True, unwind=5, rules=[(r'^ppDivMod\.2$', K(1, 1)), (r'^ppDivMod\.[01]$', 17)]))
+    obs.append(_ob('pp', 'MINPOLY', 16, [(0, 9), (0, 16)], ['ppMinPoly'], 'ppMinPoly', tiers=T, unwind=8, rules=[(r'^ppMinPoly\.1$', 20)]))
     return [o for o in obs if tier in o.tiers]
